@@ -717,6 +717,28 @@ def rule_R2(ctx, entry_terms):
     runf = prog.fn("phyclone.run.run")
     burn = prog.fn("run._run_burnin")
 
+    # ---- (0) no way out of the main sampler without the post-burn-in entry: every returning path first passes through
+    # the call that starts the trace (must-pass-through; helpers newer than the rules followed by name)
+    from ..paths import enumerate_paths as _paths
+
+    starters = {st_fi.name, app.name}
+    for h_ in prog.functions.values():
+        if prog.is_new_function(h_) and any(isinstance(c_, ast.Call) and call_name(c_).split(".")[-1] in (st_fi.name, app.name) for c_ in ast.walk(h_.node)):
+            starters.add(h_.name)
+    try:
+        ps_ = _paths(f.node.body)
+    except AnalysisError:
+        ps_ = []
+    for steps_, oc_ in ps_:
+        if oc_ != "return":
+            continue
+        seen_ = any(isinstance(c_, ast.Call) and call_name(c_).split(".")[-1] in starters for s_ in steps_ if isinstance(s_.node, ast.AST) for c_ in ast.walk(s_.node))
+        if not seen_:
+            last_ = steps_[-1].node if steps_ else f.node
+            ctx.fail("R2", "_run_main_sampler: every returning path has recorded the post-burn-in state", f.where(last_), "a path returns the chain's results without ever calling %s: the state the burn-in left (and everything after it) is missing from the trace on that path" % st_fi.name, construct=f.qualname, stmt="return before setup_trace")
+            break
+    else:
+        ctx.ok("R2", "_run_main_sampler: every returning path has recorded the post-burn-in state", f.where())
     # ---- (1) setup_trace: exactly one entry, taken from the tree / tree_dist it is handed
     # (append_to_trace is kept opaque here; what one call appends is rule R1)
     ex = extract(prog, st_fi, no_inline=[app.name])
